@@ -140,12 +140,41 @@ func insidePerTokenizer(in, marker string) bool {
 	return false
 }
 
+// inRawTextPerTokenizer: in the context-free tokenizer's view, is the marker part of the text that follows the start
+// tag of an RCDATA / raw-text element other than script and style (title, textarea, xmp, ...)?
+func inRawTextPerTokenizer(in, marker string) bool {
+	open := ""
+	for _, t := range obs.Retok(in) {
+		switch t.Type {
+		case html.StartTagToken:
+			switch t.Name {
+			case "title", "textarea", "xmp", "iframe", "noembed", "noframes", "noscript", "plaintext":
+				open = t.Name
+			default:
+				open = ""
+			}
+		case html.EndTagToken, html.SelfClosingTagToken:
+			open = ""
+		case html.TextToken:
+			if open != "" && strings.Contains(t.Data, marker) {
+				return true
+			}
+		}
+	}
+	return false
+}
+
 // markersInForeignScriptStyle: markers inside a script/style element that itself has an svg or math ancestor.
 func markersInForeignScriptStyle(in string) map[string]bool {
+	return markersInScriptStyleUnder(in, "svg", "math")
+}
+
+// markersInScriptStyleUnder: markers inside a script/style element that itself has one of the named ancestors.
+func markersInScriptStyleUnder(in string, anc ...string) map[string]bool {
 	out := map[string]bool{}
 	for _, ctx := range []string{"body", "div"} {
 		obs.Walk(obs.DOM(in, ctx), func(n *html.Node) {
-			if n.Type != html.TextNode || !obs.HasAncestor(n, "script", "style") || !obs.HasAncestor(n, "svg", "math") {
+			if n.Type != html.TextNode || !obs.HasAncestor(n, "script", "style") || !obs.HasAncestor(n, anc...) {
 				return
 			}
 			s := n.Data
@@ -190,6 +219,7 @@ func judgeC05(v *spec.View, in, out string) (sig, what string, nontrivial bool) 
 	}
 	inside, hasEl := markersInsideScriptStyle(in)
 	foreignMarkers := markersInForeignScriptStyle(in)
+	var selectMarkers map[string]bool
 	for _, m := range inside {
 		if strings.Contains(out, m) {
 			// Classify by the two views of the input. The sanitiser works on x/net's context-free tokenizer: if,
@@ -199,8 +229,15 @@ func judgeC05(v *spec.View, in, out string) (sig, what string, nontrivial bool) 
 			// does not), it is the known tokenizer differential.
 			sig := "body-text"
 			if !insidePerTokenizer(in, m) {
+				if selectMarkers == nil {
+					selectMarkers = markersInScriptStyleUnder(in, "select")
+				}
 				if foreignMarkers[m] {
 					sig = "body-text|foreign-content-tokenizer-differential"
+				} else if selectMarkers[m] && inRawTextPerTokenizer(in, m) {
+					// the other place where the tree builder switches raw-text handling off: inside select the
+					// start tags of title/textarea/xmp/... are ignored and the tokenizer is told so
+					sig = "body-text|select-rawtext-tokenizer-differential"
 				} else {
 					sig = "body-text|tree-builder-only"
 				}
